@@ -424,9 +424,11 @@ static void run_simple(int idx, int kind, const Op* op, int op_index) {
 	case OP_CHANGE_TO: case OP_CHANGE_WITH: case OP_IMM_CHANGE_TO: case OP_IMM_CHANGE_WITH:
 		ok = T.active; break;
 	case OP_PLAN_APPEND: case OP_PLAN_APPEND_WITH: case OP_PLAN_REMOVE_NTH: case OP_PLAN_CLEAR: case OP_PLAN_WALK:
+		// a plan may also be prepared on a manually activated machine before enter() (it is kept until exit())
+		ok = plans && (T.active ? reports_allowed() : g_info->manual != 0); break;
 	case OP_SUCCEED: case OP_FAIL:
 		ok = plans && T.active && reports_allowed(); break;
-	case OP_PLAN_FILL: ok = plans && T.active && T.mirror.empty(); break;
+	case OP_PLAN_FILL: ok = plans && (T.active || g_info->manual) && T.mirror.empty(); break;
 	case OP_SAVE: ok = g_info->f_serial && (g_info->manual || T.active) && W.snaps.size() < MAX_SNAPS && idx == 0; break;
 	case OP_LOAD: ok = g_info->f_serial && !W.snaps.empty() && (g_info->manual || T.active) && !W.c->replicas; break;
 	case OP_ENTER: ok = g_info->manual && !T.active; break;
